@@ -2,8 +2,9 @@ from pyvc.runner import Property
 import contracts.all  # noqa
 import contracts.mailbox as M
 import contracts.storage as ST
+import contracts.processor as PR
 
-PROVED = [M.KFE_E, M.KFE_L, M.KILL_E, M.KILL_L, M.SEND_FROM_E, M.SEND_FROM_L, M.SEND_E, M.READ_E, ST.save_from]
+PROVED = [M.KFE_E, M.KFE_L, M.KILL_E, M.KILL_L, M.SEND_FROM_E, M.SEND_FROM_L, M.SEND_E, M.READ_E, ST.save_from, PR.tmp_iter, PR.stp_iter]
 
 PROPERTY = Property(
     "C06", "other",
@@ -12,11 +13,16 @@ PROPERTY = Property(
     trusted=["pyvc VC generator, value model and monitor rule", "z3 5.1.0 / cvc5 1.4.0"],
     assumptions=["ONLY the exception-relay contracts are decided: that every pipeline thread terminates, that nothing hangs and that "
                  "processing terminates when the capacity exceeds the largest lag are liveness statements outside this family",
-                 "processor-level relay (ThreadedMailboxProcessor.iter, SingleThreadProcessor.iter, Context.get_iter, "
-                 "Saver.save_from) is not yet under contract"],
+                 "Context.get_iter's own relay (throwing OutsideException / the consumer's exception into the processor) is not under contract",
+                 "ThreadedMailboxProcessor.iter: on a GeneratorExit arriving directly (only when the processor is driven without "
+                 "Context.get_iter) the code assigns into a tuple and raises TypeError before killing the mailboxes - observation F9; the "
+                 "contract allows that TypeError and proves the relay for every other failure"],
     explanation="failure relay inside the mailbox layer: kill_from_exception kills with the ORIGINAL reason of a MailboxKilled and "
                 "re-raises anything else; kill sets the flags and notifies all three conditions (signal obligations); every exception "
                 "from the source or from send in the sender thread kills the mailbox (a failed send is thrown back into the source "
                 "first); send / _read re-check killed after every wait and raise MailboxKilled; a consumer exception at yield kills "
-                "the mailbox",
+                "the mailbox; processor level: when the target's generator fails, ThreadedMailboxProcessor.iter kills EVERY mailbox "
+                "upstream with the failure's reason, cleans EVERY mailbox up (joins its threads), shuts the executors down and only then "
+                "re-raises; SingleThreadProcessor.iter closes every saver while the exception is being handled (so it is recorded) "
+                "before re-raising it",
 )
